@@ -925,6 +925,52 @@ fn gen_rotblock_t<T: RealNumber>(c: &mut Case) {
     check_gen::<T>(c, &inp);
 }
 
+/// Quasi-triangular input (already in real Schur form up to the coupling entries): 1x1 blocks and 2x2 blocks
+/// [[a, b], [c, a]] with b·c < 0 on the diagonal, random entries above. Some 2x2 blocks carry a *close* complex
+/// pair with entries of very different size (|b| = eps^0.6..eps^0.4, |c| = 0.1..1): the back-substitution through such
+/// a block has to pick its pivot with care.
+fn gen_quasitri_t<T: RealNumber>(c: &mut Case) {
+    let n = c.rng.us(3, 12);
+    let mut a = Mat::zeros(n, n);
+    let mut i = 0;
+    let mut lopsided = false;
+    while i < n {
+        if i + 1 < n && c.rng.bool(0.45) {
+            let d = c.rng.uni(-2.0, 2.0);
+            let (b, cc) = if c.rng.bool(0.6) {
+                lopsided = true;
+                // eps^0.6 .. eps^0.4 of the width: 4e-10..5e-7 in f64, 7e-5..2e-3 in f32 (entries below the unit round-off
+                // relative to their neighbours would make the block numerically defective in that width)
+                let e = eps::<T>();
+                let b = c.rng.logu(e.powf(0.6), e.powf(0.4)) * if c.rng.bool(0.5) { 1.0 } else { -1.0 };
+                (b, -b.signum() * c.rng.uni(0.1, 1.0))
+            } else {
+                let b = c.rng.uni(0.1, 1.5) * if c.rng.bool(0.5) { 1.0 } else { -1.0 };
+                (b, -b.signum() * c.rng.uni(0.1, 1.5))
+            };
+            let (b, cc) = if c.rng.bool(0.5) { (b, cc) } else { (cc, b) };
+            a.set(i, i, d);
+            a.set(i + 1, i + 1, d);
+            a.set(i, i + 1, b);
+            a.set(i + 1, i, cc);
+            i += 2;
+        } else {
+            a.set(i, i, c.rng.uni(-3.0, 3.0));
+            i += 1;
+        }
+    }
+    for r in 0..n {
+        for q in r + 1..n {
+            if a.at(r, q) == 0.0 && !(q == r + 1 && a.at(q, r) != 0.0) {
+                a.set(r, q, c.rng.normal());
+            }
+        }
+    }
+    let kind = if lopsided { "quasi-triangular:lopsided-2x2-blocks" } else { "quasi-triangular:balanced-2x2-blocks" };
+    let inp = GenInput { a: rnd::<T>(a), kind: kind.to_string(), known: None, known_factor: 1.0, alt: None, separated: false };
+    check_gen::<T>(c, &inp);
+}
+
 fn gen_normal_t<T: RealNumber>(c: &mut Case) {
     let n = size(&mut c.rng, NMAX);
     let k = c.rng.below(6);
@@ -1105,6 +1151,7 @@ both!(gen_rotblock, gen_rotblock_t, 0.35);
 both!(gen_normal, gen_normal_t, 0.35);
 both!(gen_balance, gen_balance_t, 0.35);
 both!(gen_separated, gen_separated_t, 0.35);
+both!(gen_quasitri, gen_quasitri_t, 0.3);
 
 fn main() {
     runner::main(Spec {
@@ -1131,6 +1178,7 @@ fn main() {
             Family::new("gen_normal", 800, 16000, gen_normal),
             Family::new("gen_balance", 800, 16000, gen_balance),
             Family::new("gen_separated", 700, 14000, gen_separated),
+            Family::new("gen_quasitri", 700, 14000, gen_quasitri),
         ],
         min_nontrivial: 1500,
         case_timeout_s: 120,
